@@ -527,6 +527,140 @@ class ResponderSys:
 
 
 # =============================================================================
+# (1b) responders whose function raises (single dispatcher: deterministic)
+
+RAISE_KINDS = ['plain', 'raiser', 'oneshot', 'oneshot-raiser']
+
+
+def raise_cases():
+    out = []
+    for matching in (False, True):
+        for n in (1, 2, 3):
+            for layout in itertools.product(RAISE_KINDS, repeat=n):
+                if not any('raiser' in k for k in layout):
+                    continue
+                out.append({'part': 'raise', 'matching': matching,
+                            'layout': list(layout), 'msgs': 3})
+    return out
+
+
+def run_raise_case(case):
+    """Responders of one dispatcher on one path, some of which raise after
+    logging; the same message is delivered `msgs` times.  Decided by the
+    statement: nobody fires twice for one message, responders created before
+    the first raising one fire, a one-shot responder fires at most once ever
+    (also when its function raised), firing order is creation order, and the
+    next datagram is still processed.  Not decided (don't-care): whether the
+    responders after a raising one see that message."""
+    from mc import seams, vthreading as vt
+    env = _env()
+    ex = seams.Execution()
+    S = vt.SCHED
+    OscFunc = env['rsp'].OscFunc
+    log = []
+    rs = []
+    dis = []
+
+    def cb(i, raises):
+        def f(msg, time, addr, port):
+            log.append(i)
+            if raises:
+                raise RuntimeError('user function failed')
+        return f
+    try:
+        for i, kind in enumerate(case['layout']):
+            f = cb(i, 'raiser' in kind)
+            r = OscFunc.matching(f, '/a') if case['matching'] \
+                else OscFunc(f, '/a')
+            if kind.startswith('oneshot'):
+                r.one_shot()
+            rs.append(r)
+        S.idle()
+        state = ['live'] * len(rs)      # live | spent | maybe (one-shots)
+        total = [0] * len(rs)
+        data = osc10.encode_message('/a', [1])
+        iface = env['main']._osc_interface
+        obs_all = []
+        for d in range(case['msgs']):
+            S.sleep(DT, exact=True)
+            mark = len(log)
+            try:
+                iface._handle_request(data, (A[0], A[1]))
+                S.idle()
+            except (vt.Deadlock, vt.Livelock) as e:
+                dis.append(('raise-deliver-blocks', 'returns',
+                            type(e).__name__, str(e)))
+                break
+            except Exception as e:
+                dis.append(('raise-deliver-raises-into-receiver', 'returns',
+                            type(e).__name__, str(e)[:200]))
+            obs = log[mark:]
+            obs_all.append(list(obs))
+            must, may = [], []
+            stopped = False
+            for i, kind in enumerate(case['layout']):
+                one = kind.startswith('oneshot')
+                if state[i] == 'spent':
+                    continue
+                if stopped or state[i] == 'maybe':
+                    may.append(i)
+                    if 'raiser' in kind and i in obs:
+                        stopped = True      # it ran, and it raised
+                else:
+                    must.append(i)
+                    if 'raiser' in kind:
+                        stopped = True
+            detail = f'delivery {d + 1}: must {must} may {may}; all ' \
+                     f'deliveries so far {obs_all}'
+            if len(set(obs)) != len(obs):
+                dis.append(('raise-fired-twice-for-one-message', must, obs,
+                            detail))
+            for i in obs:
+                if i not in must and i not in may:
+                    dis.append(('raise-oneshot-fired-again'
+                                if case['layout'][i].startswith('oneshot')
+                                else 'raise-extra', must, obs, detail))
+            for i in must:
+                if i not in obs:
+                    dis.append(('raise-missed-before-raising-responder',
+                                must, obs, detail))
+            if obs != sorted(obs):
+                dis.append(('raise-order', sorted(obs), obs, detail))
+            for i in set(obs):
+                total[i] += 1
+                if case['layout'][i].startswith('oneshot'):
+                    if total[i] > 1 and not any(
+                            x[0] == 'raise-oneshot-fired-again' for x in dis):
+                        dis.append(('raise-oneshot-fired-again', 1, total[i],
+                                    detail))
+                    state[i] = 'spent'
+            for i in may:
+                if i not in obs and case['layout'][i].startswith('oneshot') \
+                        and state[i] == 'live':
+                    state[i] = 'maybe'
+    finally:
+        _restore_responders(env, rs)
+        problems = ex.finish()
+    for pr in problems:
+        dis.append(('rt-teardown-problem', [], pr, ''))
+    return dis, obs_all
+
+
+def raise_work(job):
+    acc = progenum.Acc(max_samples=2)
+    cases = raise_cases()
+    for k, case in enumerate(cases):
+        if k % job['of'] != job['shard']:
+            continue
+        dis, obs = run_raise_case(case)
+        for kind, exp, o, detail in dis:
+            acc.violation(kind, case, exp, o, detail,
+                          size=len(case['layout']))
+        acc.case(case, len(case['layout']) > 1, obs, steps=case['msgs'])
+    return acc.result()
+
+
+# =============================================================================
 # (4) registries
 
 def _labelled(label, log, with_server=None):
@@ -1411,6 +1545,12 @@ def replay(job):
         return {'violates': any(d[0] == job['kind'] for d in dis),
                 'class': cls, 'disagreements': [list(map(repr, d))
                                                 for d in dis]}
+    if part == 'raise':
+        dis, obs = run_raise_case(case)
+        return {'violates': any(d[0] == job['kind'] for d in dis),
+                'deliveries': obs,
+                'disagreements': [[d[0], repr(d[1]), repr(d[2])]
+                                  for d in dis]}
     if part == 'fault':
         cl, obs, dis, steps = run_fault_case(case)
         return {'violates': any(d[0] == job['kind'] for d in dis),
@@ -1590,6 +1730,11 @@ def main(ctx):
     for name in sorted(RESP_PARAMS):
         run_bfs(ctx, 'resp', RESP_PARAMS[name], depth,
                 f'responders/{name}: depth {depth}')
+    progenum.run(ctx, MODNAME, 'raise_work',
+                 [{'shard': i, 'of': 16} for i in range(16)], mode='rt',
+                 bound='responders whose function raises: all layouts of <=3 '
+                       'responders over plain/raiser/oneshot/oneshot-raiser, '
+                       'both dispatchers, 3 deliveries')
     t0 = _timed(ctx, 'responders', t0)
     # (4) registries
     d = 5 if quick else 6
